@@ -1,5 +1,5 @@
 //@PROBE file=src/trackers/visual_sort/batch_api.rs test=verif_probe_tracker_kinds clauses=tracker_kinds
-//@BOUND the four tracker kinds (Sort, BatchSort, VisualSort, BatchVisualSort) x {IoU(0.3), Mahalanobis} x store shards 1..=2 x voting workers 1..=2, history length 4 != max idle 2; one 12-step script over two scenes occupying the SAME image region (objects that disappear for 1, 3 and 4 steps, negative / large angles, confidence 0.6, an object that jumps 150 px keeping its appearance, a feature-less detection covering a third of another one; visual kinds with Euclidean(0.5) / Cosine(0.2) appearance metrics and own-area thresholds use=collect=0.4 / collect-only 0.8; per record also the number of collected features and the stored own-area share): (1) the per-call record contract, (2) the scene-1 trace of the two-scene run equals the run of scene 1 alone up to renaming of ids, (3) each batch kind equals its simple kind per scene up to renaming, (4) idle listing after the last step; wasted() hands every track out once, with histories that hold the most recent min(length, history) entries in arrival order; custom ids sometimes absent; batch requests filled round-robin across the scenes; the stored own-area share equals the library's share of the detection among the detections of its own scene
+//@BOUND the four tracker kinds (Sort, BatchSort, VisualSort, BatchVisualSort) x {IoU(0.3), Mahalanobis} x store shards 1..=2 (NON-default Kalman weights: loose with one shard, tight with two) x voting workers 1..=2, history length 4 != max idle 2; one 12-step script over two scenes occupying the SAME image region (objects that disappear for 1, 3 and 4 steps, negative / large angles, confidence 0.6, an object that jumps 150 px keeping its appearance, a feature-less detection covering a third of another one; visual kinds with Euclidean(0.5) / Cosine(0.2) appearance metrics and own-area thresholds use=collect=0.4 / collect-only 0.8; per record also the number of collected features and the stored own-area share): (1) the per-call record contract, (2) the scene-1 trace of the two-scene run equals the run of scene 1 alone up to renaming of ids, (3) each batch kind equals its simple kind per scene up to renaming, (4) idle listing after the last step; wasted() hands every track out once, with histories that hold the most recent min(length, history) entries in arrival order; custom ids sometimes absent; batch requests filled round-robin across the scenes; the stored own-area share equals the library's share of the detection among the detections of its own scene
 #[cfg(test)]
 mod verif_probe_tracker_kinds {
     // Bounded stand-in for the tracker-level clauses of C01 / C03 / C04 over ALL tracker kinds (predict* drive store
@@ -21,8 +21,7 @@ mod verif_probe_tracker_kinds {
     const HIST: usize = 4;
     const IDLE: usize = 2;
     // NON-default Kalman weights (defaults: 1/20, 1/160): a tracker that gates with a filter built from other weights than it was configured with is exposed
-    const KPW: f32 = 1.0 / 8.0;
-    const KVW: f32 = 1.0 / 60.0;
+    fn kw(shards: usize) -> (f32, f32) { if shards == 1 { (1.0 / 8.0, 1.0 / 60.0) } else { (1.0 / 200.0, 1.0 / 1600.0) } } // loose with one shard, tight with two
 
     #[derive(Clone)]
     struct Det { bbox: Universal2DBox, feat: Option<Vec<f32>>, cid: Option<i64>, obj: usize }
@@ -62,18 +61,18 @@ mod verif_probe_tracker_kinds {
     enum Kind { S, BS, V, BV }
     enum T { S(Sort), BS(BatchSort), V(VisualSort), BV(BatchVisualSort) }
     /// variant: bit 0 = cosine(0.2) instead of euclidean(0.5); bit 1 = only the COLLECT own-area threshold is set (0.8), not the use one
-    fn vopts(method: PositionalMetricType, variant: u8) -> VisualSortOptions {
+    fn vopts(method: PositionalMetricType, variant: u8, shards: usize) -> VisualSortOptions {
         let (u, c) = if variant & 2 == 0 { (0.4, 0.4) } else { (0.0, 0.8) };
         VisualSortOptions::default().max_idle_epochs(IDLE).kept_history_length(HIST).visual_metric(if variant & 1 == 0 { VisualSortMetricType::Euclidean(0.5) } else { VisualSortMetricType::Cosine(0.2) }).positional_metric(method)
             .visual_minimal_track_length(2).visual_minimal_area(5.0).visual_minimal_quality_use(0.45).visual_minimal_quality_collect(0.5).visual_max_observations(3).visual_min_votes(1)
-            .visual_minimal_own_area_percentage_use(u).visual_minimal_own_area_percentage_collect(c).kalman_position_weight(KPW).kalman_velocity_weight(KVW)
+            .visual_minimal_own_area_percentage_use(u).visual_minimal_own_area_percentage_collect(c).kalman_position_weight(kw(shards).0).kalman_velocity_weight(kw(shards).1)
     }
     fn make(kind: Kind, method: PositionalMetricType, shards: usize, voters: usize, variant: u8) -> T {
         match kind {
-            Kind::S => T::S(Sort::new(shards, HIST, IDLE, method, 0.05, None, KPW, KVW)),
-            Kind::BS => T::BS(BatchSort::new(shards, voters, HIST, IDLE, method, 0.05, None, KPW, KVW)),
-            Kind::V => T::V(VisualSort::new(shards, &vopts(method, variant))),
-            Kind::BV => T::BV(BatchVisualSort::new(shards, voters, &vopts(method, variant))),
+            Kind::S => T::S(Sort::new(shards, HIST, IDLE, method, 0.05, None, kw(shards).0, kw(shards).1)),
+            Kind::BS => T::BS(BatchSort::new(shards, voters, HIST, IDLE, method, 0.05, None, kw(shards).0, kw(shards).1)),
+            Kind::V => T::V(VisualSort::new(shards, &vopts(method, variant, shards))),
+            Kind::BV => T::BV(BatchVisualSort::new(shards, voters, &vopts(method, variant, shards))),
         }
     }
     impl T {
